@@ -90,5 +90,28 @@ CLAIMED["C13"] = dict(
     note="Trusted: Lean kernel, harness/door, toml_edit (multi-line strings, its own encoder used by the wizard and the exporter - "
          "their round trips are run, not proved), certificate loading (rustls-pki-types) for the TLS-host refusals.",
 )
+CLAIMED["C02"] = dict(
+    text="Unbounded Lean theorems about the copy-loop machine, for every sequence of endpoint answers (all chunkings, all partial-write "
+         "quotas incl. 0, all error positions, all timer cancellations/restarts): delivered ++ held = read (no loss, duplication, "
+         "reordering), delivered is always a prefix of what was read, credit (consume) and metrics never exceed and at each loop head "
+         "equal the bytes forwarded, EOF is passed on only when drained and Finished means everything was delivered and credited, "
+         "restarts lose nothing, nothing is issued after a failure; duplex: Ok iff both directions finished, an error stops both. Tied "
+         "to pipe.rs by replaying the call log of the real DuplexPipe (scripted endpoints, paused clock) through the machine, which "
+         "must predict every call, plus a direct byte/credit/order oracle on the log.",
+    note="Trusted: Lean kernel, harness/door (scripted Source/Sink implement the crate-private traits inside lib/src/verif.rs), "
+         "cancel-safety of real sources, h2/quiche flow-control internals (consume(n) -> WINDOW_UPDATE n), kernel TCP. Cancellation of a "
+         "pending flush() is not modelled (scripts use instantaneous flushes).",
+)
+CLAIMED["C14"] = dict(
+    text="Unbounded Lean theorems about the idle-timer model (per-direction last activity, per-iteration timers, both-idle test): "
+         "idle_not_early - a tunnel closed at c had no transfer in [c - T, c], so traffic at least every T (even exactly at the deadline) "
+         "never closes it; idle_bound_2T - after the last transfer at a the tunnel is closed at some c with a + T < c <= a + 2T. Tied to "
+         "pipe.rs by comparing, for thousands of scripted activity patterns on delays {0, T/4, .., T-1, T, T+1, .., 2T+1, 3T}, the virtual "
+         "time at which the real exchange() returns TimedOut with the model fed with the logged transfer times. The establishment "
+         "timeout (connect) is exercised in the C10 suite; the TLS-handshake timeout is a tokio timeout wrapper read from core.rs.",
+    note="Trusted: Lean kernel, harness/door, tokio's paused clock and timer wheel; with a real clock timers fire late by scheduling "
+         "latency (not modelled). Release of sockets/tasks on timeout = drop of the futures (Rust ownership), observed only as "
+         "'no call after the exchange ended' in the logs.",
+)
 NOT_CLAIMED = {p: "not yet built in this framework (planned, see DESIGN.md section 5)" for p in
-               ["C01", "C02", "C07", "C08", "C09", "C10", "C14", "C16", "C17", "C18", "C19", "C20"]}
+               ["C01", "C07", "C08", "C09", "C10", "C16", "C17", "C18", "C19", "C20"]}
